@@ -417,7 +417,7 @@ structure Inv (c : Cache) : Prop where
   wf : Wf c
   size_le : c.size ≤ c.capacity
 
-theorem HALF_lt_W : HALF + HALF = W := by decide
+theorem HALF_lt_W : HALF + HALF = W := by unfold HALF W; omega
 
 theorem base_amap {c : Cache} (hb : Base c) (id : Nat) (f : Asset → Asset)
     (h1 : ∀ a, (f a).id = a.id) (h2 : ∀ a, (f a).insertNum = a.insertNum) (h3 : ∀ a, (f a).size = a.size) :
